@@ -476,8 +476,8 @@ func cmdHarness(args []string) int {
 }
 
 func printResult(res *gosym.HarnessResult, full bool) {
-	fmt.Printf("%s: paths=%d outcomes=%v obligations=%d discharged=%d violations=%d inconclusive=%d queries=%d wall=%.1fs solver=%v\n",
-		res.Func, len(res.Paths), res.Outcomes, res.Obligations, res.Discharged, len(res.Violations), len(res.Inconclusive), res.Queries, res.WallS, fmtTimes(res.SolverTime))
+	fmt.Printf("%s: paths=%d outcomes=%v obligations=%d discharged=%d violations=%d inconclusive=%d overapprox=%d queries=%d wall=%.1fs solver=%v\n",
+		res.Func, len(res.Paths), res.Outcomes, res.Obligations, res.Discharged, len(res.Violations), len(res.Inconclusive), res.OverApprox, res.Queries, res.WallS, fmtTimes(res.SolverTime))
 	if !full {
 		return
 	}
